@@ -1,0 +1,15 @@
+//go:build verif
+
+package pubsub
+
+import "sync/atomic"
+
+// verifPopBeforeWaitHook, when set, runs between rpcQueue.Pop's context check
+// and its wait on the condition variable (queue mutex held).
+var verifPopBeforeWaitHook atomic.Pointer[func(*rpcQueue)]
+
+func verifPopBeforeWait(q *rpcQueue) {
+	if f := verifPopBeforeWaitHook.Load(); f != nil {
+		(*f)(q)
+	}
+}
